@@ -20,8 +20,9 @@ CONF_T = CONF_Q + [("isi", {"MRTS": 40 * U}), ("spike", {"RI": True}), ("spike",
 def plan(tier):
     if tier == "quick":
         specs = [(3, [("dense", 1, 3)], CONF_Q), (4, [("dense", 1, 2)], CONF_Q[:5:2] + CONF_Q[5:]),
-                 (3, [("near", 2, 2)], CONF_Q),
+                 (3, [("near", 2, 2)], CONF_Q), (3, [("tiny", 2, 2)], CONF_Q[:5:2]),
                  (5, [("bounded", 1, 1, 2)], CONF_Q[::2]),
+                 (4, [("bounded", 1, 3, 4)], CONF_Q[4:6]),      # non-zero coincidences for N=4
                  # many trains with at most one spike each: 15 and 21 pairs in the accumulation
                  (6, [("bounded", 1, 1, 1)], CONF_Q[:5:2]), (7, [("bounded", 1, 1, 1)], CONF_Q[:5:4])]
     else:
